@@ -410,6 +410,59 @@ def tokens(s):
     return re.findall(r"[A-Za-z_][A-Za-z_0-9]*|\d+[A-Za-z]*|::|->|<<|>>|[^\sA-Za-z_0-9]", s)
 
 
+def ast_equal(i, l, r):
+    """True / False: the two macro forms, each in a function of its own (same source line, so that __LINE__ agrees),
+    have the same type-resolved syntax tree up to generated names, lambda locations and string contents.  None when
+    the probe cannot be parsed."""
+    import json
+    import subprocess
+    gen = facts.gen_dir()
+    os.makedirs(gen, exist_ok=True)
+    src = os.path.join(gen, "c03_macro_%d.cpp" % i)
+    out = os.path.join(gen, "c03_macro_%d.jsonl" % i)
+
+    def stmt(x):
+        return ("auto e = %s;" % x) if re.match(r"(TROMPELOEIL_)?NAMED_", x) else (x + ";")
+    with open(src, "w") as fh:
+        fh.write("#include <trompeloeil.hpp>\nstruct ProbeMock { MAKE_MOCK1(f, void(int)); };\n"
+                 "void probeL(ProbeMock& o) { %s } void probeR(ProbeMock& o) { %s }\nint main() {}\n" % (stmt(l), stmt(r)))
+    facts.ensure_plugin()
+    cmd = ["clang++", "-std=c++17", "-I" + cc.INCLUDE, "-fsyntax-only", "-w", "-fplugin=" + facts.PLUGIN, "-Xclang", "-plugin",
+           "-Xclang", "tvfacts", "-Xclang", "-plugin-arg-tvfacts", "-Xclang", "out=" + out, src]
+    p = subprocess.run(cmd, capture_output=True, text=True)
+    if p.returncode != 0 or not os.path.exists(out):
+        return None
+    trees = {}
+    for line in open(out):
+        try:
+            o = json.loads(line)
+        except ValueError:
+            continue
+        side = "probeL" if "probeL" in (o.get("q") or "") else ("probeR" if "probeR" in (o.get("q") or "") else None)
+        if o.get("k") == "fn" and side:
+            def strip(x):
+                if isinstance(x, dict):
+                    return {k: strip(v) for k, v in x.items() if k not in ("loc", "id", "callee", "var", "callop", "cls")}
+                if isinstance(x, list):
+                    if x[:1] == ["str"]:
+                        return ["str"]
+                    if x[:1] == ["lambda"]:
+                        return ["lambda"]
+                    if x[:1] in (["var"], ["fnref"], ["ctor"], ["call"], ["mcall"], ["opcall"], ["method"]) and len(x) > 1 \
+                            and isinstance(x[1], int):
+                        return [x[0]] + [strip(v) for v in x[2:]]
+                    return [strip(v) for v in x]
+                if isinstance(x, str):
+                    x = re.sub(r"\(lambda at [^)]*\)", "(lambda)", x)
+                    return re.sub(r"_\d+\b", "_N", x)
+                return x
+            body = json.dumps([strip(o.get("q")), strip(o.get("blocks"))], sort_keys=True)
+            trees.setdefault(side, []).append(body.replace("probeL", "probe").replace("probeR", "probe"))
+    if len(trees) != 2:
+        return None
+    return sorted(trees["probeL"]) == sorted(trees["probeR"])
+
+
 def macro_tables(ctx, rule_ids=("C03.c", "C07.a")):
     os.makedirs(facts.gen_dir(), exist_ok=True)
     lines = ["#include <trompeloeil.hpp>"]
@@ -431,10 +484,16 @@ def macro_tables(ctx, rule_ids=("C03.c", "C07.a")):
             ctx.ob(rule, l, None, detail="probe line not found in preprocessor output")
             continue
         a, b = tokens(m.group(1)), tokens(m.group(2))
-        # the infinity spelling may differ (TROMPELOEIL_INFINITY_TIMES): compare modulo the two literal forms
         ok = a == b
-        ctx.ob(rule, "macro " + l.split("(")[0], ok, pattern="include/trompeloeil/mock.hpp", unit="clang++ -E",
-               detail="" if ok else "%s does not expand like %s" % (l, r),
+        how = "clang++ -E"
+        if not ok:
+            # the spellings differ (a type alias, a helper macro with other tokens): compare what the two forms MEAN -
+            # the type-resolved syntax trees of two functions that contain one form each
+            ok = ast_equal(i, l, r)
+            how = "type-resolved syntax tree"
+        ctx.ob(rule, "macro " + l.split("(")[0], ok, pattern="include/trompeloeil/mock.hpp", unit=how,
+               detail="" if ok else ("%s does not expand like %s" % (l, r) if ok is False else
+                                     "%s and %s expand to different tokens and could not be compared as syntax trees" % (l, r)),
                witness=None if ok else {"left": " ".join(a)[-400:], "right": " ".join(b)[-400:]})
 
 
